@@ -83,7 +83,8 @@ Theorem C16_declared_compat :
 Proof. exact declared_compat. Qed.
 Print Assumptions C16_declared_compat.
 
-(* partial: the print/parse round-trip of the stdlib is a hypothesis (sampled by the harness) *)
+(* partial: for an arbitrary printer the print/parse round-trip of the stdlib is a hypothesis (sampled by the
+   harness); for UUIDs it is proved below against a concrete model of the text form *)
 Theorem C16_roundtrip_partial :
   forall E k c (print : pyval -> pyval) ok y,
     (c = CoDecimal /\ ok = OkDecimal /\ k = KDecimal) \/ (c = CoUuid /\ ok = OkUuid /\ k = KUuid) \/
@@ -93,3 +94,39 @@ Theorem C16_roundtrip_partial :
     forall fuel m, run E m (S fuel) (Scalar k (Some c) [] [] []) (print y) = OValid y.
 Proof. exact roundtrip. Qed.
 Print Assumptions C16_roundtrip_partial.
+
+(* ---------- canonical text round-trips: proved for UUIDs against a concrete model of the text form ----------
+   [uuid_str] is str(UUID) ('%032x' cut 8-4-4-4-12), [uuid_parse] is the UUID(hex) constructor on what it reads
+   without int()'s leniencies (Model/Text.v); both are compared with CPython on every run.  The only premise
+   left about the stdlib is that its constructor agrees with [uuid_parse] wherever the latter answers -
+   the round-trip itself (every one of the 2^128 values comes back from its canonical text) is a theorem. *)
+From KV Require Import Model.Text Proofs.TextP.
+Theorem C16_uuid_text_roundtrip :
+  forall n, (0 <= n < 2 ^ 128)%Z -> uuid_parse (uuid_str n) = Some n.
+Proof. exact uuid_roundtrip. Qed.
+Print Assumptions C16_uuid_text_roundtrip.
+
+Theorem C16_uuid_roundtrip :
+  forall E,
+    (forall s n, uuid_parse s = Some n -> oracle E OkUuid (VStr s) = Some (VUuid n)) ->
+    forall n, (0 <= n < 2 ^ 128)%Z ->
+    forall fuel m, run E m (S fuel) (Scalar KUuid (Some CoUuid) [] [] []) (VStr (uuid_str n)) = OValid (VUuid n).
+Proof.
+  intros E Hext n Hn fuel m.
+  apply (roundtrip E KUuid CoUuid (fun _ => VStr (uuid_str n)) OkUuid (VUuid n)).
+  - right. left. repeat split.
+  - reflexivity.
+  - apply Hext. apply uuid_roundtrip. exact Hn.
+Qed.
+Print Assumptions C16_uuid_roundtrip.
+
+(* upper-case digits, braces and missing dashes read the same (the forms the constructor documents) *)
+Example C16_uuid_text_forms :
+  let n := 24197857161011715162171839636988778104%Z in
+  uuid_str n = [49;50;51;52;53;54;55;56;45;49;50;51;52;45;53;54;55;56;45;49;50;51;52;45;53;54;55;56;49;50;51;52;53;54;55;56]%Z /\
+  uuid_parse (uuid_str n) = Some n /\
+  uuid_parse (123 :: uuid_str n ++ [125])%Z = Some n /\
+  uuid_parse (to_hex 32 n) = Some n /\
+  uuid_parse (firstn 35 (uuid_str n)) = None /\
+  uuid_parse (uuid_str n ++ [48])%Z = None.
+Proof. vm_compute. repeat split. Qed.
